@@ -45,6 +45,8 @@ class Report:
     if cond:
       self.ok(rule, key, construct=construct, where=where)
     else:
+      if callable(message):
+        message = message()
       self.fail(rule, key, message, where=where, construct=construct, **kw)
     return cond
 
